@@ -34,18 +34,12 @@ SigNewLen   == "McGroupStatusAnsPayload.new-length"           \* new() keeps 5n 
 SigSign     == "FromStr-accepts-sign"                         \* "+" followed by 2n-1 digits is accepted
 SigIdHeader == "McGroupSetupReqCreator.mc_group_id_header-unmasked"   \* id >= 4 written into the RFU bits
 SigEcho     == "EchoIncPayloadAnsCreator.payload-overlong-panics"     \* more than 241 octets: panic
-SigTTS      == "McClassSessionAns.TimeToStart-unconditional"  \* the iterator always takes 4 payload octets
 
 \* ======================================================================= C03: iterators
-\* out = Items(set, in); under SigTTS the unconditional reading is accepted as well
-ItemsVerdict(set, in, out) ==
-    IF out = Items(set, in) THEN "ok"
-    ELSE IF set = "mc_up" /\ IsAllowed(SigTTS) /\ out = ItemsFixedTTS(set, in) THEN "known"
-    ELSE "bad"
+\* out = Items(set, in), or the other reading of the disputed McClass{C,B}SessionAns entry (MacCmds!ItemsAccepted)
+ItemsVerdict(set, in, out) == IF ItemsAccepted(set, in, out) THEN "ok" ELSE "bad"
 ItemsOk(tag, set, in, out) ==
-    LET v == ItemsVerdict(set, in, out) IN
-    IF v = "ok" THEN TRUE
-    ELSE IF v = "known" THEN Known(SigTTS, <<set, in>>)
+    IF ItemsAccepted(set, in, out) THEN TRUE
     ELSE Chk(<<tag, set, in>>, Items(set, in), out)
 
 NameOfItem(set, it) ==
@@ -69,9 +63,7 @@ DecodeLast(o, j) ==
          ELSE IF last[1] = 0 /\ last[3] = -1 THEN SubSeq(o, 1, Len(o) - 1) \o << <<0, last[2], j>> >>
          ELSE o
 RunOk(set, base, lo, hi, o) ==
-    IF \A j \in lo..hi : Items(set, base \o <<j>>) = DecodeLast(o, j) THEN TRUE
-    ELSE IF \A j \in lo..hi : ItemsVerdict(set, base \o <<j>>, DecodeLast(o, j)) # "bad"
-         THEN Known(SigTTS, <<set, base, lo, hi>>)
+    IF \A j \in lo..hi : ItemsAccepted(set, base \o <<j>>, DecodeLast(o, j)) THEN TRUE
     ELSE \A j \in lo..hi : Chk(<<"short string", set, base \o <<j>>>>, Items(set, base \o <<j>>), DecodeLast(o, j))
 RowsOk(e, run(_, _, _, _)) ==
     \A r \in 1..Len(e.rows) :
@@ -138,8 +130,8 @@ PayloadNewOk(e) ==
     LET c == CmdByName(e.set, e.name)
         n == WholePayloadLen(c, e.in, FALSE) IN
     IF PayloadNewGood(e, c, n) THEN TRUE
-    ELSE IF c.len = CondTTS /\ IsAllowed(SigTTS) /\ PayloadNewGood(e, c, WholePayloadLen(c, e.in, TRUE))
-         THEN Known(SigTTS, <<"payload_new", e.name, e.in>>)
+    \* disputed entry: the unconditional reading of TimeToStart is accepted as well
+    ELSE IF c.len = CondTTS /\ PayloadNewGood(e, c, WholePayloadLen(c, e.in, TRUE)) THEN TRUE
     ELSE IF IsAllowed(SigNewLen) /\ NewLenDeviation(e) THEN Known(SigNewLen, <<e.in, e.ok, e.bytes, Len(e.panics)>>)
     ELSE PayloadNewReport(e, c, n)
 
@@ -218,10 +210,11 @@ ArgVal(f, v) == IF U24(f) THEN LEInt(v, 0, 3) ELSE v
 BitSet(x, g) == (x \div Pow2(g)) % 2 = 1
 OrBit(x, g) == IF BitSet(x, g) THEN x ELSE x + Pow2(g)
 
-GenericStep(c, p, s) ==
+GenericStep(c, p, s, obsPayload) ==
     LET f == FieldOf(c, s.f)
         a == ArgVal(f, s.v) IN
     IF c.name = "McGroupSetupReq" /\ s.f = "McGroupID" /\ a >= 4 /\ s.r = 1 /\ IsAllowed(SigIdHeader)
+       /\ Len(obsPayload) >= 1 /\ obsPayload[1] = a          \* (the built octet shows which of the two happened)
     THEN Follow(SigIdHeader, <<a>>, <<a>> \o Tail(p))          \* the whole McGroupIDHeader octet is overwritten
     ELSE IF s.r = 2 THEN Bad(p, <<"setter panicked", c.name, s.f>>, s.v)
     ELSE IF InRange(f, a) THEN
@@ -296,7 +289,7 @@ Step(c, p, s, obsPayload) ==
       [] s.f = "ReqGroup" -> ReqGroupStep(c, p, s)
       [] s.f = "McKey" -> McKeyStep(c, p, s, obsPayload)
       [] s.f = "Push" -> PushStep(c, p, s)
-      [] OTHER -> IF HasField(c, s.f) THEN GenericStep(c, p, s)
+      [] OTHER -> IF HasField(c, s.f) THEN GenericStep(c, p, s, obsPayload)
                   ELSE Bad(p, <<"setter bound to a field the layout does not have", c.name, s.f>>, s.f)
 
 RECURSIVE Fold(_, _, _, _, _)
